@@ -7,7 +7,8 @@
 (* boundary the statement allows either answer.  A case is                  *)
 (*   [t (client type), p (period, s), age (whole seconds between the newest *)
 (*    trusted state and the block time), sub (sub-second part of the block  *)
-(*    time, ns)].                                                           *)
+(*    time, ns), lag (seconds between the trusted state's own time and the *)
+(*    moment this chain stored it)].                                        *)
 (* A pure decision: the TLA+ contributes the exhaustive case grid and the   *)
 (* oracle, not interleavings.                                               *)
 (***************************************************************************)
@@ -17,7 +18,11 @@ CONSTANTS Types, Periods, AgeOffsets, BigAges, Subs, SimDepth
 VARIABLES evlog
 
 Ages(p) == {a \in {p + o - 2 : o \in AgeOffsets} : TRUE} \cup {0} \cup {10 * p} \cup BigAges   \* offsets are shifted by 2: 1 = p-1, 2 = p, 3 = p+1
-AllCases == UNION {{[act |-> "Status", c |-> "A", t |-> t, p |-> p, age |-> a, sub |-> s] : t \in Types, a \in Ages(p), s \in Subs} : p \in Periods}
+\* lag: how long after its own timestamp the newest trusted state was stored on this chain (a late relayer); the
+\* statement measures the age of the trusted state itself, so the answer must not depend on it
+Lags(a) == {0, a}
+AllCases == UNION {UNION {{[act |-> "Status", c |-> "A", t |-> t, p |-> p, age |-> a, sub |-> s, lag |-> g] :
+                             t \in Types, s \in Subs, g \in Lags(a)} : a \in Ages(p)} : p \in Periods}
 
 \* the set of answers the property allows for a case
 Allowed(e) ==
